@@ -135,7 +135,7 @@ CLAIMED = {
          "two files, a struct member, a typed-map value) is arbitrarily null, empty, a file inside the pipestance, never written, a file outside, a relative or an "
          "absolute symlink. Asserted: every existing output is reachable under outs/ with its identity, the rewritten _outs designates it, the reported location "
          "still leads to it, inside files are moved not linked, missing ones become null, non-file values are untouched, no file is lost or duplicated, nothing "
-         "outside the pipestance changes. H_C13_array2d: two-dimensional arrays of files as top-level outputs. H_C05_postProcessResumed (a file already moved by an interrupted run). H_C13_pathOutput: directory outputs (5 variants) on a model with symlinked parents and directory renames.",
+         "outside the pipestance changes. H_C13_array2d: two-dimensional arrays of files as top-level outputs. H_C05_postProcessResumed (a file already moved by an interrupted run). H_C13_pathOutput: directory outputs (5 variants) on a model with symlinked parents and directory renames. H_C13_mapKeyNames: typed-map keys which cannot be file names stay in the record.",
          "Trusted: go/ssa, symgo, z3, the file-system model and the reference JSON decoder (both in the harness, both part of the claim). Outside: the real "
          "file system (permissions, I/O errors, hard links, links in directory components), compile-time output-name rules, multi-fork top-level calls, directories "
          "as outputs.",
